@@ -47,7 +47,7 @@ var corpus = []string{
 	// huge results, long cells, long headers
 	"SELECT a.n, b.n FROM big a, big b", "SELECT printf('%0170d', n), s FROM big", "SELECT group_concat(s, char(10)) FROM big",
 	"SELECT body FROM notes WHERE id = 1", "SELECT raw FROM notes WHERE id = 1",
-	"SELECT " + manyCols(500) + " FROM trace", "SELECT 1 AS a, 2 AS \"\", 3 AS \",\"",
+	"SELECT " + manyCols(120) + " FROM trace WHERE ID < 40", "SELECT 1 AS a, 2 AS \"\", 3 AS \",\"",
 	// Unicode blanks and case folding
 	"ſELECT 1", "wıth x as (select 1) select * from x", " SELECT 1", " SELECT 1　", "ＳＥＬＥＣＴ 1",
 	"SELECT 1", "\u0085SELECT 1\u0085;", "\xa0SELECT 1", "SELECT 1\xc2", "sElEcT 1", "wITh x as (select 2) select * from x", "KSELECT 1",
@@ -65,12 +65,12 @@ func manyCols(n int) string {
 	return sb.String()
 }
 
-// very long column names around the real 64 KiB cap: thorough tier only (the
-// 70000-byte one is in corpus/C37 and therefore runs first on every tier)
+// very long column names around the real 64 KiB cap: thorough tier only (corpus/C37
+// holds the same defect at a 200-byte cap, run first on every tier)
 var longHeaders = []string{
 	"SELECT 1 AS \"" + strings.Repeat("h,", 40000) + "\"", "SELECT " + manyCols(3000) + " FROM trace",
 	"SELECT 1 AS " + strings.Repeat("k", 65400) + ", n FROM big", "SELECT 1 AS " + strings.Repeat("k", 65439) + ", n FROM big",
-	"SELECT 1 AS " + strings.Repeat("k", 65440) + ", n FROM big", "SELECT 1 AS " + strings.Repeat("c", 70001),
+	"SELECT 1 AS " + strings.Repeat("k", 65440) + ", n FROM big", "SELECT 1 AS " + strings.Repeat("c", 70000),
 }
 
 var fragments = []string{
@@ -167,7 +167,14 @@ func gen(r *hx.Rand, tier string) []json.RawMessage {
 	}
 
 	// ---- end to end through the real tool
+	bigReads := 0
 	for _, q := range corpus {
+		if strings.Contains(q, "FROM big") && !strings.Contains(q, "printf") {
+			bigReads++
+			if tier != "thorough" && bigReads%3 != 1 { // 1000-row results are bulky: a third of them in the quick tier
+				continue
+			}
+		}
 		add(input{Kind: "query", SQL: ints(q)})
 	}
 	if tier == "thorough" {
@@ -188,7 +195,7 @@ func gen(r *hx.Rand, tier string) []json.RawMessage {
 		// the real 15 s limit of the tool
 		add(input{Kind: "query", SQL: ints("WITH RECURSIVE c(x) AS (SELECT 1 UNION ALL SELECT x+1 FROM c WHERE x < 400000000) SELECT count(*) FROM c")})
 	}
-	nq := 25
+	nq := 14
 	if tier == "thorough" {
 		nq = 150
 	}
